@@ -16,13 +16,14 @@ TOUCH = {
     "src/abstract_composition.rs": ["C02", "C04", "C06"],
     "src/props.rs": ["C02", "C04", "C06"],
     "src/element_specification.rs": ["C16", "C06"],
-    "src/element.rs": ["C16", "C12"],
+    "src/element.rs": ["C16", "C12", "C01", "C05"],
+    "src/helper.rs": ["C01", "C05", "C16", "C12"],
     "src/table.rs": ["C12", "C03"],
     "src/isotopic_pattern/baffling.rs": ["C03", "C08", "C09", "C10"],
     "src/isotopic_pattern/convolution.rs": ["C11", "C10"],
-    "src/isotopic_pattern/poisson.rs": ["C15", "C10"],
-    "src/isotopic_pattern/peak.rs": ["C13", "C14"],
-    "src/mz.rs": ["C10"],
+    "src/isotopic_pattern/poisson.rs": ["C15", "C10", "C09"],
+    "src/isotopic_pattern/peak.rs": ["C13", "C14", "C11", "C10"],
+    "src/mz.rs": ["C10", "C11", "C15", "C09"],
     "bindings/c/src/lib.rs": ["C17"],
 }
 
